@@ -35,7 +35,11 @@ fn random_field(rng: &mut Rng, depth: u32, used: &mut Vec<(u8, u32)>, der: bool)
                log_tag(&mut log, 0, 4, false); log.push(0); log_bytes(&mut log, &body);
                Field { enc: Dyn::Wrapped(wm, Box::new(inner_enc)), dec: Prog::Take { opt: false, kind: 1, exp: Some((0, 4)), body: Body::Generic }, log, tag: (0, 4) } }
         0 => { let ty = rng.below(10) as u8; let bits = [7u32, 15, 31, 63, 126, 8, 16, 32, 64, 126][ty as usize];
-               let mag = rng.u128() >> (128 - rng.range(1, bits as u64) as u32); let neg = ty < 5 && rng.bool() && mag != 0;
+               let mut mag = rng.u128() >> (128 - rng.range(1, bits as u64) as u32); let mut neg = ty < 5 && rng.bool() && mag != 0;
+               // often a value next to a power of two where the number of content octets changes, either sign
+               if rng.chance(1, 3) { let sh = 7 + 8 * rng.below((bits as u64 + 1) / 8) as u32; neg = ty < 5 && rng.bool();
+                   let p = 1u128 << sh.min(bits); let cand = match rng.below(3) { 0 => p - 1, 1 => p, _ => p + 1 };
+                   mag = cand.min(if neg { 1u128 << bits } else { (1u128 << bits) - 1 }); if mag == 0 { neg = false; } }
                log_tag(&mut log, c, n, false); log.push(if neg { -(mag as i128) } else { mag as i128 });
                Field { enc: Dyn::Int(c, n, ty, neg, mag), dec: Prog::Take { opt: false, kind: 1, exp: Some(tag), body: Body::Typed(ty) }, log, tag } }
         1 => { let b = rng.bool(); log_tag(&mut log, c, n, false); log.push(b as i128);
